@@ -26,7 +26,10 @@ EXPLANATION = (
     "Solve catches, Solve returns NAUNET_SUCCESS when the try block completes and NAUNET_FAIL through every handler (entered from each statement of the try block that can throw), integrate_adaptive runs over [0, dt] on the "
     "vector that is copied back, with an observer built per call from mxsteps_; R5 every caller of Solve inside the templates throws exactly when its result is "
     "NAUNET_FAIL (cvode and odeint Python wrappers agree); R6 (premise of R3) cv_y_ has no storage of its own and is pointed at the caller's array before "
-    "CVodeInit, so the state HandleError writes is the state CVodeReInit restarts from.")
+    "CVodeInit, so the state HandleError writes is the state CVodeReInit restarts from; every other CVode call HandleError makes before / between the levels "
+    "(its own or an inlined helper's, default arguments filled in, local lambdas inlined) reports the time reached into HandleError's own time variable whenever "
+    "a level can start afterwards (R3); R7 odeint: the member Solve builds the observer from is assigned from the budget parameter of Init / Reset on every path "
+    "on which they report success (no success exit before the assignment unless its guard says the member already equals the parameter).")
 ASSUMPTIONS = [
     "CVODE's / Boost.Odeint's own behaviour, floating-point exactness of pow(10, log10(dt)) and the scheduling of failures are not decided",
     "DESIGN.md Appendix D gives the invariant whose premises R2/R3 are",
